@@ -16,6 +16,8 @@ pub(crate) fn any_stamp() -> IterationStamp {
     stamp(it, c)
 }
 
+// @verif prop=C15 obl=O1 tier=quick bounds="all values: every stamp with iteration <= 200 and any cancellation epoch (201 x 256 stamps)"
+// @+ encodes="IterationStamp::new, IterationStamp::increment_iteration, IterationStamp::iteration, IterationStamp::cancellation_count, IterationStamp::iteration_as_u32, IterationStamp::is_initial_iteration, IterationStamp::cmp"
 /// C15-O1: over all 2^16 stamps satisfying the invariant `iteration <= 200`:
 /// `increment_iteration` yields the next iteration in the same cancellation epoch, strictly
 /// greater, still within the invariant, exactly while `iteration < 200`; otherwise `None`.
@@ -44,6 +46,8 @@ fn c15_o1_increment_bounded() {
     kani::cover!(it == 0 && c == 0);
 }
 
+// @verif prop=C15 obl=O1 tier=quick bounds="all values: every cancellation epoch"
+// @+ encodes="IterationStamp::initial, IterationStamp::default, IterationStamp::is_default, IterationStamp::is_initial_iteration"
 /// C15-O1: the invariant is established by `initial` (iteration 0, given epoch) and by the
 /// default stamp.
 #[kani::proof]
@@ -58,6 +62,8 @@ fn c15_o1_initial_establishes_invariant() {
     kani::cover!(c == 255);
 }
 
+// @verif prop=C15 obl=O1 tier=quick bounds="all values: every cancellation epoch; the real increment is executed until it refuses (unwind 203)"
+// @+ encodes="IterationStamp::initial, IterationStamp::increment_iteration"
 /// C15-O1 (bounded history): starting from `initial(c)`, `k` successful increments give
 /// iteration `k`; the 201st increment is refused. The loop runs the real function 201 times.
 #[kani::proof]
@@ -74,6 +80,8 @@ fn c15_o1_at_most_200_increments() {
     assert!(n == 200 && s.iteration() == 200 && s.cancellation_count() == c);
 }
 
+// @verif prop=C20 obl=O1 tier=quick bounds="all values: all 2^32 pairs of stamps"
+// @+ encodes="IterationStamp::new, IterationStamp::cmp, IterationStamp::eq, IterationStamp::initial"
 /// C20-O1: stamps are ordered by cancellation epoch first, then by iteration; a stamp created
 /// after a cancellation (greater epoch) compares greater than every stamp created before it.
 #[kani::proof]
@@ -91,6 +99,8 @@ fn c20_o1_stamp_order() {
     kani::cover!(c1 == c2 && i1 < i2);
 }
 
+// @verif prop=C20 obl=O1 tier=quick bounds="all values: every stamp with iteration <= 200; same-epoch updates"
+// @+ encodes="AtomicIterationStamp::from, AtomicIterationStamp::load, AtomicIterationStamp::load_mut, AtomicIterationStamp::store_iteration, AtomicIterationStamp::set_iteration"
 /// C20-O1: `AtomicIterationStamp` stores and loads stamps exactly.
 #[kani::proof]
 fn c20_o1_atomic_stamp_roundtrip() {
